@@ -127,10 +127,6 @@ Proof.
 Qed.
 
 (* ------------------------------------------------------------------ sound layouts *)
-Record sound_layout (L : Z) (t : tree) (s : list field) : Prop := {
-  sl_unique : fids_unique t;
-  sl_placed : all_placed L t s;
-  sl_disjoint : no_overlap t s }.
 
 Lemma enabled_in_all t fv i f : In (i, f) (enabled_fields t fv) -> In (i, f) (all_fields t).
 Proof.
